@@ -7,6 +7,10 @@ STEPB = "hiten/algorithms/continuation/stepping/base.py"
 SUPPORT = "hiten/algorithms/continuation/stepping/support.py"
 SEC = "hiten/algorithms/continuation/stepping/sc/base.py"
 
+ENGINE = "hiten/algorithms/poincare/centermanifold/engine.py"
+CMBACK = "hiten/algorithms/poincare/centermanifold/backend.py"
+CMINTF = "hiten/algorithms/poincare/centermanifold/interfaces.py"
+
 MUTANTS = [
     # ------------------------------------------------------------------ C06
     {"id": "c06-shared-row", "property": "C06", "what": "_poly_mul accumulates into one shared scratch row (classic lost update)",
@@ -58,4 +62,29 @@ MUTANTS = [
      "edits": [(PC, "                        left_target = True\n", "                        pass\n")]},
     {"id": "c13-stale-corrected-leak", "property": "C13", "what": "a raising corrector leaves the previous iteration's converged flag (stale member appended again)",
      "edits": [(PC, "                except Exception as e:\n                    converged = False\n                    res_norm = np.nan\n", "                except Exception as e:\n                    res_norm = np.nan\n")]},
+    # ------------------------------------------------------------------ C14
+    {"id": "c14-shared-accumulators", "property": "C14", "what": "per-worker accumulation lists hoisted out of _worker (shared between workers)",
+     "edits": [(ENGINE, "        def _worker(chunk: np.ndarray):\n            states_accum, times_accum = [], []\n", "        states_accum, times_accum = [], []\n\n        def _worker(chunk: np.ndarray):\n")]},
+    {"id": "c14-times-submission-order", "property": "C14", "what": "times gathered in submission order while states are gathered in completion order (rows misaligned)",
+     "edits": [(ENGINE, "                if s.size:\n                    states_list.append(s)\n                    times_list.append(t)\n",
+                "                if s.size:\n                    states_list.append(s)\n            times_list = [f.result()[1] for f in futures if f.result()[0].size]\n")]},
+    {"id": "c14-no-enforce-section", "property": "C14", "what": "enforce_section_coordinate returns the states unchanged",
+     "edits": [(CMINTF, "        out = np.array(arr, copy=True, order=\"C\")\n        out[:, idx] = 0.0\n        return out", "        out = np.array(arr, copy=True, order=\"C\")\n        return out")]},
+    {"id": "c14-direction-inverted", "property": "C14", "what": "direction test inverted for q3 sections in _detect_crossing",
+     "edits": [(CMBACK, "        good_dir = state_new[n_dof + 2] > 0.0", "        good_dir = state_new[n_dof + 2] < 0.0")]},
+    {"id": "c14-tcross-step-end", "property": "C14", "what": "crossing state taken at the step end instead of the Hermite-refined crossing (alpha ignored for q2)",
+     "edits": [(CMBACK, "            q2p = _hermite_scalar(alpha, state_old[1],       state_new[1],       rhs_old[1],       rhs_new[1],       dt)", "            q2p = _hermite_scalar(1.0 - alpha, state_old[1],       state_new[1],       rhs_old[1],       rhs_new[1],       dt)")]},
+    {"id": "c14-exception-swallowed", "property": "C14", "what": "a failing worker is silently skipped when gathering",
+     "edits": [(ENGINE, "                s, t = fut.result()\n", "                try:\n                    s, t = fut.result()\n                except Exception:\n                    continue\n")]},
+    {"id": "c14-last-chunk-dropped", "property": "C14", "what": "the last chunk of seeds is dropped when more than one worker is used",
+     "edits": [(ENGINE, "        chunks = np.array_split(seeds0, n_workers_eff)\n", "        chunks = np.array_split(seeds0, n_workers_eff)\n        chunks = chunks[:-1] if len(chunks) > 1 else chunks\n")]},
+    {"id": "c14-prange-shared-scratch", "property": "C14", "what": "_poincare_map stages its per-seed result in one scratch array shared by all prange iterations",
+     "edits": [(CMBACK, "    t_out = np.zeros(n_seeds, dtype=np.float64)\n\n    for i in prange(n_seeds):", "    t_out = np.zeros(n_seeds, dtype=np.float64)\n    tmp = np.zeros(5, dtype=np.float64)\n\n    for i in prange(n_seeds):"),
+               (CMBACK, "        if flag == 1:\n            success[i] = 1\n            q2p_out[i] = q2_new\n            p2p_out[i] = p2_new\n            q3p_out[i] = q3_new\n            p3p_out[i] = p3_new\n            t_out[i] = t_cross\n",
+                "        if flag == 1:\n            tmp[0] = q2_new\n            tmp[1] = p2_new\n            tmp[2] = q3_new\n            tmp[3] = p3_new\n            tmp[4] = t_cross\n            success[i] = 1\n            q2p_out[i] = tmp[0]\n            p2p_out[i] = tmp[1]\n            q3p_out[i] = tmp[2]\n            p3p_out[i] = tmp[3]\n            t_out[i] = tmp[4]\n")]},
+    {"id": "c14-points-first-two-columns", "property": "C14", "what": "the original defect: 2-d points are always columns (q2,p2) whatever the section",
+     "edits": [(CMINTF, "        points = self.plane_points_from_states(outputs.states, section_coord=problem.section_coord)\n", "        points = outputs.states[:, :2] if outputs.states.size else np.empty((0, 2))\n")]},
+    {"id": "c14-feedback-unenforced-ok", "property": "C14", "expect": "quiet",
+     "what": "NON-ALARM: gather order changed (futures consumed in submission order instead of completion order); the set of rows is unchanged",
+     "edits": [(ENGINE, "            for fut in as_completed(futures):\n", "            for fut in futures:\n")]},
 ]
